@@ -1,7 +1,10 @@
 package govc
 
 import (
+	"encoding/json"
 	"fmt"
+	"go/ast"
+	"go/token"
 	"go/types"
 	"os"
 	"path/filepath"
@@ -28,6 +31,9 @@ type Engine struct {
 	SpecLib  string
 	ModPkgs  []*packages.Package
 	fileHome map[string]*types.Package
+	// LocalsRef: for every function under contract, the names of its locals in declaration order on the reference
+	// tree (written by -relock into locals.lock.json next to the spec library)
+	LocalsRef map[string][]string
 }
 
 var goEnv = []string{"GOFLAGS=-mod=mod", "GOPROXY=off", "GOSUMDB=off", "GOTOOLCHAIN=local"}
@@ -164,6 +170,11 @@ func Load(repoDir string, patterns []string, overlay map[string][]byte, specLib 
 			for _, a := range init.AnonFuncs {
 				add(a)
 			}
+		}
+	}
+	if specLib != "" {
+		if b, err := os.ReadFile(filepath.Join(filepath.Dir(specLib), "locals.lock.json")); err == nil {
+			_ = json.Unmarshal(b, &e.LocalsRef)
 		}
 	}
 	return e, nil
@@ -336,4 +347,73 @@ func (e *Engine) LookupGoType(s string, home *types.Package) types.Type {
 		}
 	}
 	return nil
+}
+
+// LocalNames lists the local variables (and named results, not parameters) a function declares, in source order.
+func (e *Engine) LocalNames(fn *ssa.Function) []string {
+	syn := fn.Syntax()
+	if syn == nil {
+		return nil
+	}
+	var info *types.Info
+	for _, p := range e.ModPkgs {
+		if p.Types == fn.Pkg.Pkg {
+			info = p.TypesInfo
+		}
+	}
+	if info == nil {
+		return nil
+	}
+	params := map[string]bool{}
+	for _, p := range fn.Params {
+		params[p.Name()] = true
+	}
+	type nv struct {
+		pos  token.Pos
+		name string
+	}
+	var all []nv
+	ast.Inspect(syn, func(n ast.Node) bool {
+		if lit, ok := n.(*ast.FuncLit); ok && ast.Node(lit) != syn {
+			return false // nested closures have their own list
+		}
+		id, ok := n.(*ast.Ident)
+		if !ok || id.Name == "_" {
+			return true
+		}
+		if v, ok := info.Defs[id].(*types.Var); ok && !v.IsField() && !params[id.Name] {
+			all = append(all, nv{id.Pos(), id.Name})
+		}
+		return true
+	})
+	sort.Slice(all, func(i, j int) bool { return all[i].pos < all[j].pos })
+	var out []string
+	for _, x := range all {
+		out = append(out, x.name)
+	}
+	return out
+}
+
+// renamedLocals maps reference names to current names when the function declares the same number of locals and
+// they differ only by name at some positions.
+func (e *Engine) renamedLocals(key string, fn *ssa.Function) map[string]string {
+	ref, ok := e.LocalsRef[key]
+	if !ok {
+		return nil
+	}
+	cur := e.LocalNames(fn)
+	if len(ref) != len(cur) {
+		return nil
+	}
+	curSet := map[string]bool{}
+	for _, n := range cur {
+		curSet[n] = true
+	}
+	out := map[string]string{}
+	for i := range ref {
+		if ref[i] != cur[i] && !curSet[ref[i]] {
+			out[ref[i]] = cur[i]
+		}
+	}
+	return out
 }
